@@ -123,6 +123,8 @@ def step (s : State) (toks : List String) : State × String :=
       | none => (s, "blocked")
     | none => (s, "bad-op")
   | ["storm", _, _, _] => ({}, "ok")
+  -- time passes (a handler may stay blocked for as long as it likes): nothing happens
+  | ["sleep", _] => (s, "ok")
   -- trace validation of runs scheduled by the Go runtime: one line per observed event
   | ["ev-accept", i, m] =>
     match i.toNat?, m.toNat? with
